@@ -3,7 +3,7 @@ LEVEL = "proof"
 LEAN_MODULES = ["CifModel.Props.C07"]
 REQUIRED = ["CifModel.C07_serialize_roundtrip", "CifModel.C07_serialize_buffer", "CifModel.C07_buf_write_terminates",
             "CifModel.C07_buf_write_ok", "CifModel.C07_default_cap_ok", "CifModel.C07_columns_roundtrip",
-            "CifModel.C07_schema_link", "CifModel.C07_numb_in_list", "CifModel.C07_numb_produced_consistent",
+            "CifModel.C07_schema_link", "CifModel.C07_numb_in_list", "CifModel.C07_numb_in_list_full", "CifModel.C07_numb_produced_consistent",
             "CifModel.C07_constructible_roundtrip", "CifModel.C07_store_read", "CifModel.C07_store_read_loop_routes",
             "CifModel.C07_store_read_delivers_cells", "CifModel.C07_numb_in_list_partial", "CifModel.C07_numb_list_roundtrip",
             "CifModel.C07_cex_buf_write_pinned", "CifModel.C07_cex_buf_write_cap1", "CifModel.C07_cex_empty_digits"]
@@ -40,6 +40,6 @@ LEVEL_TEXT = ("Proof about an executable Lean model of the serialiser/deserialis
               "of C04 — read-after-write for set_value, add_item, add_packet and iterator update. Tied to the C by differential execution: family ser (real serialise -> free -> deserialise, direct calls of "
               "cif_buf_write) and family storeval (five storing routes x three read-back paths through SQLite).")
 LEVEL_NOTE = ("C07_numb_in_list is proved at full strength (numbers from parse_numb, init_numb, autoinit_numb, create/init, via group "
-              "gB's initNumb_roundtrip). Trusted: word-level buffer "
+              "gB's initNumb_roundtrip = C10_init_text_roundtrip / C10_autoinit_text_roundtrip; C07_numb_in_list_full states it together with the serialise -> deserialise round trip). Trusted: word-level buffer "
               "abstraction, translator extension, SQLite's faithful storage of bound values, executors/oracles.")
 TECHNIQUE = "Lean 4 proof (mutual structural induction with cost-bounded fuel; invariant of the write buffer) + differential execution"
